@@ -267,6 +267,7 @@ def run_scenario(line):
         w._new_socket = new_socket
         pc.socket.create_connection = lambda *aa, **kw: new_socket()
     started = {"v": False}
+    stopped = {"v": False}
     results = {}          # (pub index, msg index) -> (rc, mid, info, qos)
     on_pub = []
     c.on_publish = lambda cl, ud, mid, rc, props: on_pub.append(mid)
@@ -279,6 +280,8 @@ def run_scenario(line):
         def run():
             sch.block_until(lambda: started["v"], "loop_start() returned")
             for j, q in enumerate(progs[i]):
+                if stopped["v"]:
+                    break        # the network thread has been stopped: later publishes are outside C07
                 try:
                     info = c.publish(f"t/{i}/{j}", bytes([65 + i, 48 + j]) * 3, q)
                     results[(i, j)] = (int(info.rc), info.mid, info, q)
@@ -308,6 +311,7 @@ def run_scenario(line):
                 sch.block_until(all_done, "all publishes completed")
             c.disconnect()
             c.loop_stop()
+            stopped["v"] = True
         except S.Deadlock:
             raise
         except Exception as e:  # noqa: BLE001
@@ -328,6 +332,12 @@ def run_scenario(line):
     LogDeque.EV = None
     WORLD.EVHOOK = None
     events = list(sch.events)
+    # the hand-off model covers the time during which the loop_start() thread is the writer: once it has exited, a
+    # publish() still in progress writes directly (`_thread is None`), which is not replayed
+    for i, e in enumerate(events):
+        if e[0] == "wk 0 exit":
+            events = events[:i + 1] + [x for x in events[i + 1:] if not x[0].startswith("wk ")]
+            break
     mismatch = replay_model(events) if failed is None else None
     # ---- canonical observation
     mids = [r[1] for r in results.values()]
